@@ -5,7 +5,7 @@
    state (C13-stateful-date, recorded: see props/C13.json). *)
 From Coq Require Import List Permutation Sorted Bool NArith ZArith String.
 From RareV Require Import Base.Hex Gen.GenSortSets Model.Sort
-  Proofs.SortGeneric Proofs.SortOrders Proofs.SortCtx Proofs.SortCheck.
+  Proofs.SortGeneric Proofs.SortOrders Proofs.SortCtx Proofs.SortMerge Proofs.SortCheck.
 Import ListNotations.
 
 (* ---- determinism from the order axioms (for ANY correct sorting algorithm) ---- *)
@@ -321,6 +321,26 @@ Proof. vm_compute. repeat split. Qed.
 Theorem C13_check_sound : forall c, case_wf c = true -> in_domain c = true -> C13_check c (model c) = true.
 Proof. exact C13_check_sound_proof. Qed.
 Print Assumptions C13_check_sound.
+
+(* ---- large key sets, row limits ---- *)
+(* the O(n log n) sort the model uses for thousands of keys IS the reference sort *)
+Theorem C13_msort_is_reference_sort : forall (A : Type) (less : A -> A -> bool) (l : list A),
+  order_on less l -> NoDup l -> msort less l = isort less l.
+Proof. intros A less. exact (msort_isort less). Qed.
+Print Assumptions C13_msort_is_reference_sort.
+(* the rows an accessor with a limit shows (ItemsSortedBy(limit, ..)) are the first [limit] rows of
+   THE sorted arrangement of the items - the one every arrangement sorts to (C13_mode_deterministic) *)
+Theorem C13_top_rows : forall m rv (its : list item) f limit arr,
+  mode_pure m its = Some f -> NoDup (map item_name its) -> Permutation its arr ->
+  firstn limit (msort (with_rev rv f) its) =
+  firstn limit (fst (sisort (build_cmp (m, rv)) s_init arr)).
+Proof.
+  intros m rv its f limit arr H Hnd Hp.
+  rewrite (mode_sort_deterministic m rv its f H Hnd arr Hp).
+  rewrite (msort_isort (with_rev rv f) its); [reflexivity| |now apply items_NoDup].
+  exact (proj1 (build_cmp_pure m rv its f H Hnd)).
+Qed.
+Print Assumptions C13_top_rows.
 
 (* ---- collectors over histories (counter, subkey counter, table rows / columns, reduce groups) ---- *)
 (* The sorted view is a function of the FINAL aggregated data: two histories with the same totals
